@@ -20,7 +20,10 @@ impl Permissioner {
             }
 
             if let Some(topic_permissions) =
-                stream_permissions.topics.as_ref().unwrap().get(&topic_id)
+                stream_permissions
+                .topics
+                .as_ref()
+                .and_then(|topics| topics.get(&topic_id))
             {
                 if topic_permissions.manage_topic || topic_permissions.read_topic {
                     return Ok(());
@@ -49,7 +52,10 @@ impl Permissioner {
             }
 
             if let Some(topic_permissions) =
-                stream_permissions.topics.as_ref().unwrap().get(&stream_id)
+                stream_permissions
+                .topics
+                .as_ref()
+                .and_then(|topics| topics.get(&stream_id))
             {
                 if topic_permissions.manage_topic || topic_permissions.read_topic {
                     return Ok(());
@@ -118,7 +124,10 @@ impl Permissioner {
             }
 
             if let Some(topic_permissions) =
-                stream_permissions.topics.as_ref().unwrap().get(&topic_id)
+                stream_permissions
+                .topics
+                .as_ref()
+                .and_then(|topics| topics.get(&topic_id))
             {
                 if topic_permissions.manage_topic {
                     return Ok(());
